@@ -51,6 +51,13 @@ impl<'a> TokenBasedLuaGenerator<'a> {
             self.uncomment();
         }
 
+        if is_comment && !self.currently_commenting && self.output.ends_with('-') {
+            // a `-` token directly followed by `--` would start the comment one character early
+            #[cfg(darklua_verif)]
+            crate::verif_hooks::trace("space", "", 2);
+            self.output.push(' ');
+        }
+
         self.push_str(content);
 
         match trivia.kind() {
